@@ -770,6 +770,33 @@ impl NetWorld {
         }
     }
 
+    /// a fair schedule: always the transition that has been enabled for the longest time
+    /// (ties: canonical order).  Ok(steps) at quiescence, Err(steps) when the budget ran out.
+    pub fn run_fair(&mut self, max_steps: usize) -> Result<Result<usize, usize>, String> {
+        self.pump();
+        let mut since: Vec<(T, usize)> = vec![];
+        let mut n = 0;
+        loop {
+            let en = self.enabled(true);
+            if en.is_empty() {
+                return Ok(Ok(n));
+            }
+            if n >= max_steps {
+                return Ok(Err(n));
+            }
+            since.retain(|(t, _)| en.contains(t));
+            for t in en.iter() {
+                if !since.iter().any(|(x, _)| x == t) {
+                    since.push((t.clone(), n));
+                }
+            }
+            let pick = since.iter().min_by_key(|(_, k)| *k).map(|(t, _)| t.clone()).unwrap();
+            since.retain(|(t, _)| *t != pick);
+            self.apply(&pick)?;
+            n += 1;
+        }
+    }
+
     pub fn role(&self, i: usize) -> ClusterRole {
         self.nodes[i].node.dbs.get_role()
     }
@@ -986,9 +1013,15 @@ pub struct NetStats {
     pub max_path: usize,
     pub cap: Option<String>,
     pub cycles: u64,
+    /// branches that reached max_path and were finished with the fair schedule instead of being explored further
+    pub paths_finished_fairly: u64,
     /// with by_deviations: every schedule with at most this many departures from the default one was explored
     pub deviations_completed: Option<usize>,
 }
+
+/// steps granted to the fair schedule when a branch is cut at max_path (fair runs of the largest
+/// configuration end within a few hundred steps)
+pub const FAIR_TAIL_STEPS: usize = 4000;
 
 pub struct NetFinding {
     pub clause: String,
@@ -1096,7 +1129,26 @@ pub fn explore_net(
                             break;
                         }
                         if path.len() >= cfg.max_path {
-                            findings.lock().unwrap().push(NetFinding { clause: "no-quiescence-within-step-budget".into(), detail: format!("still {} transitions enabled after {} steps: {:?}", en.len(), path.len(), en), path: path.clone() });
+                            // A schedule this long has usually starved somebody (a message held back
+                            // while others overtake it again and again), which the property's timing
+                            // premise excludes.  The branch is not explored further; instead it is
+                            // finished with the fair schedule (oldest enabled transition first):
+                            // that must reach a quiet state, which is then judged like any other.
+                            stats.lock().unwrap().paths_finished_fairly += 1;
+                            match w.run_fair(FAIR_TAIL_STEPS)? {
+                                Ok(_) => {
+                                    stats.lock().unwrap().quiescent_states += 1;
+                                    for (clause, detail) in w.problems.drain(..) {
+                                        findings.lock().unwrap().push(NetFinding { clause, detail, path: path.clone() });
+                                    }
+                                    for (clause, detail) in on_quiescent(&w, &path) {
+                                        findings.lock().unwrap().push(NetFinding { clause, detail: format!("{} (after the recorded {} steps the run was finished with the fair schedule)", detail, path.len()), path: path.clone() });
+                                    }
+                                }
+                                Err(n) => {
+                                    findings.lock().unwrap().push(NetFinding { clause: "no-quiescence-under-fair-schedule".into(), detail: format!("after {} explored steps the fair schedule (oldest enabled transition first) ran {} more steps without the cluster going quiet; enabled {:?}", path.len(), n, w.enabled(true)), path: path.clone() });
+                                }
+                            }
                             break;
                         }
                         {
